@@ -125,6 +125,25 @@ func checkC12(c *Check) {
 					returns := 0
 					w := &walker{fn: fn, Inline: -1, MaxVisits: 3}
 					w.Seed = func(w *walker, st *wstate, v ssa.Value) *absVal {
+						fromWaitV := func(x ssa.Value) bool {
+							for _, o := range valueOrigins(x) {
+								if strings.HasSuffix(o, ".Wait4") {
+									return true
+								}
+							}
+							return false
+						}
+						// errors.Is(err, EINTR) is the same test as err == EINTR
+						if call, isCall := v.(*ssa.Call); isCall {
+							if e, tgt, ok := errorsIsConst(call); ok && fromWaitV(e) {
+								if mi, ok := tgt.(*ssa.MakeInterface); ok {
+									if k, isC := constInt(mi.X); isC && k == p.Sys("EINTR") {
+										return avBool(mode == "EINTR")
+									}
+								}
+							}
+							return nil
+						}
 						bo, ok := v.(*ssa.BinOp)
 						if !ok || (bo.Op != token.EQL && bo.Op != token.NEQ) {
 							return nil
